@@ -102,7 +102,7 @@ theorem conv1dTrivialAt_zero (inMin inMax : Int) (x : Int → K) (i : Int) :
 theorem conv1dTrivialAt_constant (inMin inMax : Int) (x : Int → K) (i : Int) (hin : inMin ≤ inMax) :
     conv1dTrivialAt .constant inMin inMax x i = x (clamp inMin inMax i) := by
   simp only [conv1dTrivialAt, clamp]
-  split_ifs <;> first | (congr 1; omega) | omega
+  split_ifs <;> (congr 1; omega)
 
 /-- **conv_index_ranges**, symmetric-kernel variant: the three loops sharing `j` compute the convolution with the
     symmetrised kernel `k_{|j|}`, zero extension.  (`i` inside the input range, as in `do_it`'s outer loop.) -/
